@@ -529,6 +529,20 @@ func (c *c16ctx) maps(maxLen int) {
 			}
 		}
 	})
+	// decimal integer text forms: the same text must mean the same number for
+	// every integer accessor (strconv base 10 is the reference used by AsInt64)
+	for _, t := range []string{"7", "010", "-010", "0x10", "0b11", "0o17", "1_0"} {
+		t := t
+		n, e := strconv.ParseInt(t, 10, 64)
+		cls := "integer text with leading zero / base prefix / underscore"
+		if t == "7" {
+			cls = "plain"
+		}
+		wm := map[string]int64{"a": n}
+		c.expect("AsIntMap", "RESP2 flat array", cls, c16arr(c16str("a"), c16str(t)), t, wm, e != nil, func(r RedisResult) (any, error) { return r.AsIntMap() })
+		c.expect("AsIntMap", "RESP3 map", cls, c16map(c16str("a"), c16str(t)), t, wm, e != nil, func(r RedisResult) (any, error) { return r.AsIntMap() })
+		c.expect("AsIntSlice", "array", cls, c16arr(c16str(t)), t, []int64{n}, e != nil, func(r RedisResult) (any, error) { return r.AsIntSlice() })
+	}
 	// integer valued maps (e.g. HGETALL of counters, PUBSUB NUMSUB)
 	keys := []string{"a", "b"}
 	ints := []int64{0, 1, -1, 10}
